@@ -25,6 +25,12 @@ class Exclusivity(O.Monitor):
             ndspec = self.spec["nodes"][nd.id_number - 1]
             self.sticky[nd.id_number] = not ndspec.get("prio_preempt") and not ndspec["servers"].get("preemption")
         self.preemptive = any(nd.get("prio_preempt") or nd["servers"].get("preemption") for nd in self.spec["nodes"])
+        # at pre-emptive schedule nodes a server may leave its customer only by interrupting it (recorded at that instant)
+        self.must_interrupt = {}
+        for nd in self.nodes:
+            ndspec = self.spec["nodes"][nd.id_number - 1]
+            pre = ndspec["servers"].get("preemption")
+            self.must_interrupt[nd.id_number] = bool(pre) and pre != "reroute" and not ndspec.get("prio_preempt")
         self.scan(Q, "init", first=True)
 
     def after(self, Q, node, etype, nxt):
@@ -89,6 +95,11 @@ class Exclusivity(O.Monitor):
                         old = st["cust"]
                         if self.sticky[nd.id_number] and id(old) in present and not _revisit(old, t):
                             rep("server-stays-until-customer-leaves", {"node": nd.id_number, "server": st["sid"], "cust": old.id_number, "killed": True})
+                        if self.must_interrupt[nd.id_number] and id(old) in present and not _revisit(old, t) and not O.live(nd, old):
+                            r = old.data_records[-1] if old.data_records else None
+                            if r is None or r.record_type != "interrupted service" or r.exit_date != t or r.node != nd.id_number:
+                                rep("server-leaves-its-customer-only-by-interrupting-it", {"node": nd.id_number, "server": st["sid"], "cust": old.id_number,
+                                                                                           "last_record": None if r is None else [r.record_type, O._num(r.exit_date)]})
                         st["cust"] = None
 
     def finish(self, Q, res):
